@@ -45,6 +45,9 @@ mod verif_interp {
           (run.brk == o.block_end, concat!("C06.block_end@", $t)),
           (st == o.status, concat!("C06.status@", $t)),
         );
+      } else {
+        // native replay only: keep the kani::any() sequence aligned for the following opcodes of this harness
+        let _unused_selector: u8 = kani::any();
       }
     }};
   }
